@@ -82,6 +82,20 @@ def make(bootstrap):
         c: int = 3
 
     @spec_class(**kw)
+    class HM(HP):  # re-declares a (now owned by HM, initialised by the generated constructor AFTER the grandparent's ran)
+        a: int = 50
+
+    @spec_class(**kw)
+    class HL(HM):
+        c: int = 3
+
+    @spec_class(key="b", **kw)
+    class KF:  # key whose default comes from a factory: optional
+        b: str = Attr(default_factory=lambda: "gen")
+        a: int = 0
+        c: int = 4
+
+    @spec_class(**kw)
     class KB:  # depth-3 chain, the key is introduced in the MIDDLE class
         a: int = 0
 
@@ -129,7 +143,7 @@ def make(bootstrap):
         b: str = "b"
         c: int = 2
 
-    ns = {c.__name__: c for c in (P, C, PC, R, M, HC, HD, HZ, KL, OL, NI, K, KD, O)}
+    ns = {c.__name__: c for c in (P, C, PC, R, M, HC, HD, HZ, HL, KF, KL, OL, NI, K, KD, O)}
     return ns
 
 
@@ -146,6 +160,8 @@ REF = {
     "HC": dict(attrs=[("a", int, ND), ("b", str, "hb"), ("c", int, 3)], hand={"a": 100, "b": "sig"}),
     "HD": dict(attrs=[("a", int, 7), ("b", str, "hb"), ("c", int, 3)], hand={"a": 100, "b": "sig"}),
     "HZ": dict(attrs=[("a", int, 0), ("b", str, ""), ("c", int, 3)], hand={"a": 100, "b": "sig"}),
+    "HL": dict(attrs=[("a", int, 50), ("b", str, "hb"), ("c", int, 3)], hand={"b": "sig"}),
+    "KF": dict(attrs=[("b", str, "gen"), ("a", int, 0), ("c", int, 4)], key="b"),
     "KL": dict(attrs=[("a", int, 0), ("b", str, ND), ("c", int, 4)], key="b"),
     "OL": dict(attrs=[("a", int, 1), ("b", str, "b"), ("c", int, 2)], overflow="extra"),
     "NI": dict(attrs=[("a", int, 1), ("h", int, 5), ("c", int, 2)], noninit={"h"}),
@@ -264,7 +280,7 @@ def obligations(tier):
     T = 200 if tier == "quick" else 900
     for fam in ("eager", "lazy"):
         for cname in REF:
-            if tier == "quick" and fam == "lazy" and cname in ("PC", "R", "M", "KD", "NI", "HZ", "OL"):
+            if tier == "quick" and fam == "lazy" and cname in ("PC", "R", "M", "KD", "NI", "HZ", "OL", "KF"):
                 continue
             obs.append(Ob(f"C09.{fam}.{cname}", make_h(fam, cname), _warm(), f"hierarchy {cname} ({fam} bootstrap); keyword presence bits for a, b, c; values conforming symbolic (int / str) or from a non-conforming pool; key passed positionally or by name; one unknown keyword from {UNKNOWN}; init=False attribute passed by name", expect={"ok"}, timeout=T))
     return obs
